@@ -133,16 +133,22 @@ def run_pair(cases_text, tag, timeout=600, mem_kb=8000000, sides=("impl", "model
     cf = os.path.join(WORK, tag + ".cases")
     open(cf, "w").write(cases_text)
     res = {}
-    for name, exe in (("impl", IMPLRUN), ("model", MODELRUN)):
+
+    def one(name, exe):
         if name not in sides:
-            res[name] = (0, "", "")
-            continue
+            return name, (0, "", "")
         cmd = "ulimit -v %d; ulimit -s unlimited 2>/dev/null; exec %s < %s" % (mem_kb, exe, cf)
         try:
             p = subprocess.run(["bash", "-c", cmd], stdout=subprocess.PIPE, stderr=subprocess.PIPE, timeout=timeout)
-            res[name] = (p.returncode, p.stdout.decode("utf-8", "replace"), p.stderr.decode("utf-8", "replace")[-2000:])
+            return name, (p.returncode, p.stdout.decode("utf-8", "replace"), p.stderr.decode("utf-8", "replace")[-2000:])
         except subprocess.TimeoutExpired as e:
-            res[name] = (-9, (e.stdout or b"").decode("utf-8", "replace"), "TIMEOUT")
+            return name, (-9, (e.stdout or b"").decode("utf-8", "replace"), "TIMEOUT")
+
+    # the two sides are independent processes reading the same command file: run them side by side
+    from concurrent.futures import ThreadPoolExecutor
+    with ThreadPoolExecutor(max_workers=2) as ex:
+        for name, r in ex.map(lambda a: one(*a), (("impl", IMPLRUN), ("model", MODELRUN))):
+            res[name] = r
     return res
 
 
